@@ -235,7 +235,10 @@ def h_utf8_values(F, R):
         try:
             r = PE(F, call_hook=hook, cond_hook=TRY_OK).call_fn(fid, [Sym("READER")])
         except Undecided as e:
-            raise AnchorLost("read_string cannot be evaluated: %s" % e)
+            R.fail("H-utf8", "read_string/%s/extra-processing" % ("valid" if valid else "invalid"),
+                   "read_string does something with the bytes or the text besides validating them as UTF-8 and building the String "
+                   "(it accepts / rejects / alters strings on another criterion): %s" % str(e)[:200], where=fid)
+            continue
         k = result_kind(r)
         validated = [c for c in calls if c[0] in ("validate", "std-validate")]
         unchecked = [c for c in calls if c[0] == "unchecked"]
@@ -846,3 +849,116 @@ def h_noswallow_maps(F, R):
                 R.ok("H-noswallow", key, "error of a computation that performs no I/O (%s, no await in the receiver) replaced" % et)
     R.floor("H-noswallow", "map_err sites", n, 4)
     R.analysed["map_err_sites"] = dict(cats)
+
+
+# ---- Display of the validated text types ----------------------------------------------------------------------------------
+
+_DISPLAY_OK_CALLS = {
+    "core::fmt::Formatter::<'a>::write_fmt": "write_fmt", "core::fmt::Formatter::<'a>::write_str": "write_str",
+    "core::fmt::Formatter::<'a>::pad": "pad", "core::fmt::Write::write_str": "write_str",
+    "core::fmt::rt::Argument::<'_>::new_display": "arg", "core::fmt::Arguments::<'a>::new": "args",
+    "core::fmt::Display::fmt": "display",
+}
+_TEXT_VIEWS = ("deref", "as_str", "as_ref", "borrow", "as_bytes", "clone")
+
+
+def h_display(F, R):
+    """Display for TopicName / TopicFilter writes the text and nothing else: the body is `write!(f, "{}", text)`,
+    `f.write_str(text)`, `f.pad(text)` or `Display::fmt(text, f)` on the text field; the format template is a single
+    `{}`; no other call (escaping, character iteration, extra literals) occurs."""
+    for adt, field in (("common::types::TopicName", "0"), ("common::types::TopicFilter", "inner")):
+        name = adt.rsplit("::", 1)[1]
+        fid = F.impl_method("Display", adt, "fmt")
+        if fid is None:
+            raise AnchorLost("impl Display for %s" % name)
+        b = nbody(F, fid)
+        bad = []
+        sinks = 0
+        for x in walk_all(b):
+            if x.get("k") == "Call":
+                d = x["fn"].get("def") or ""
+                role = _DISPLAY_OK_CALLS.get(d)
+                if role is None and x["fn"].get("name") in _TEXT_VIEWS and len(x["args"]) == 1:
+                    continue
+                if role is None:
+                    bad.append("calls %s" % d)
+                    continue
+                if role in ("write_str", "pad", "display", "arg"):
+                    # the text operand: a path ending in the text field of self
+                    ops = [a for a in x["args"] if "Formatter" not in (a.get("ty") or "")]
+                    txt = strip(ops[0]) if ops else {}
+                    while txt.get("k") == "Call" and txt["fn"].get("name") in _TEXT_VIEWS and len(txt["args"]) == 1:
+                        txt = strip(txt["args"][0])
+                    if txt.get("k") == "Field" and txt.get("name") == "0" and txt.get("adt") is None and strip(txt["lhs"]).get("k") == "Var":
+                        # `args.0` of the format_args! expansion: resolve the tuple binding
+                        tup = _resolve_local(b, strip(txt["lhs"])["var"]["id"])
+                        if tup is not None and tup.get("k") == "Tuple" and tup["items"]:
+                            txt = strip(tup["items"][0])
+                            while txt.get("k") == "Call" and txt["fn"].get("name") in _TEXT_VIEWS and len(txt["args"]) == 1:
+                                txt = strip(txt["args"][0])
+                    okk = txt.get("k") == "Field" and txt.get("name") == field and (txt.get("adt") or "").endswith(name) and \
+                        strip(txt["lhs"]).get("k") == "Var" and strip(txt["lhs"])["var"].get("name") == "self"
+                    if not okk:
+                        bad.append("%s of %s instead of the text field" % (role, pp(txt)[:60]))
+                    if role != "arg":
+                        sinks += 1
+                if role == "write_fmt":
+                    sinks += 1
+                if role == "args":
+                    lits = [y for y in walk_all(x["args"][0]) if y.get("k") == "Lit" and "bytes" in y]
+                    tmpl = list(lits[0]["bytes"]) if lits else None
+                    if tmpl != [0xC0, 0x00]:
+                        bad.append("format template %r is not a single `{}`" % (tmpl,))
+            elif x.get("k") in ("Loop", "While", "For", "Match", "If"):
+                bad.append("control flow (%s)" % x["k"])
+        R.check(not bad and sinks == 1, "H-display", name,
+                "Display for %s does more than write the text once: %s" % (name, "; ".join(bad[:3]) or "%d output calls" % sinks), where=fid)
+
+
+def _resolve_local(b, vid):
+    for n in walk_all(b):
+        if n.get("k") == "Block":
+            for s in n.get("stmts", []):
+                if s["k"] == "Let" and s["pat"].get("k") == "Binding" and s["pat"]["var"]["id"] == vid and s.get("init") is not None:
+                    return strip(s["init"])
+        if n.get("k") == "Match":
+            for arm in n.get("arms", []):
+                p = arm["pat"]
+                if p.get("k") == "Binding" and p["var"]["id"] == vid:
+                    return strip(n["scrut"])
+    return None
+
+
+def h_tn_values(F, R):
+    """TopicName accessors evaluated on an abstract name: deref returns the text; is_shared / is_sys are exactly
+    text.starts_with("$share/") / text.starts_with("$SYS/")."""
+    adt = "common::types::TopicName"
+    tn = Adt(adt, "TopicName", {"0": Sym("TEXT")})
+
+    def hook(d, res, args, node, env):
+        if (res or d) in F.fns:
+            return None
+        if node["fn"].get("name") == "starts_with" and len(args) == 2:
+            return Sym(("starts_with", vkey(args[0]), _str_of(args[1])))
+        return None
+    for m, want in (("is_shared", "$share/"), ("is_sys", "$SYS/")):
+        fid = adt + "::" + m
+        try:
+            r = PE(F, call_hook=hook).call_fn(fid, [tn])
+        except Undecided as e:
+            raise AnchorLost("%s cannot be evaluated: %s" % (fid, e))
+        R.check(r == Sym(("starts_with", vkey(Sym("TEXT")), want)), "H-tn-read", m,
+                "TopicName::%s evaluates to %r (expected text.starts_with(%r))" % (m, r, want), where=fid)
+    d = F.impl_method("Deref", adt, "deref")
+    r = PE(F).call_fn(d, [tn])
+    R.check(r == Sym("TEXT"), "H-tn-read", "deref", "TopicName::deref returns %r (expected the text)" % (r,), where=d)
+
+
+def _str_of(v):
+    if isinstance(v, tuple) and v and v[0] == "str":
+        return v[1]
+    if isinstance(v, tuple) and v and v[0] == "bytes":
+        return bytes(v[1]).decode("latin1")
+    if isinstance(v, str):
+        return v
+    return repr(v)
